@@ -245,7 +245,10 @@ class PropCheck:
                 il = c_impl.get(c.cid, [])
                 ml = c_model.get(c.cid, [])
                 d = [] if c.meta.get('impl_only') else vf.compare_case(c, il, ml, self.case_tol(c), self.strict_err_ops)
-                p = self.predicate(c, il)
+                try:
+                    p = self.predicate(c, il)
+                except Exception as ex:      # e.g. a dump that is not a tree at all: the oracle cannot even be evaluated
+                    p = [(0, 'the implementation output is malformed: the property predicate cannot be evaluated on it (%s: %s)' % (type(ex).__name__, str(ex)[:120]))]
                 if d and self.ignore_disagreement(c, d):
                     self.stats['disagreements_ignored_by_rule'] = self.stats.get('disagreements_ignored_by_rule', 0) + 1
                     d = []
